@@ -22,7 +22,8 @@
    hypothesis. *)
 From Coq Require Import List ZArith Bool Arith Lia.
 From Coq.Strings Require Import Byte.
-From Muduo Require Import Base_Bytes Gen_C19 C19_Model C19_Proofs C19_DownProofs C19_GenLink C19_Wire C19_WireProofs C19_Sys C19_SysProofs.
+From Muduo Require Import Base_Bytes Gen_C19 C19_Model C19_Proofs C19_DownProofs C19_GenLink C19_Wire C19_WireProofs C19_Sys C19_SysProofs C19_BiProofs C19_Codec.
+From Muduo Require C18_Model C18_Proofs C18_RpcInstance.   (* read-only, qualified: C18's codec *)
 Import ListNotations.
 Local Open Scope Z_scope.
 
@@ -316,6 +317,95 @@ Theorem C19_end_to_end :
 Proof. exact end_to_end. Qed.
 Print Assumptions C19_end_to_end.
 
+(* ---- both ends calling and serving over one connection; either end's connection may go DOWN (C19_Sys.bstep) ----
+   RpcChannel is symmetric.  [ls] is ANY interleaving, at the two ends SA / SB, of CallMethod
+   micro-steps (BCall), frames reaching onRpcMessage (BDeliver), services completing deferred
+   requests (BDone) and the connection going DOWN (BDown).  For each end w, whatever the other
+   direction and the DOWNs do: a closure that runs at w was given the reply that the service at the
+   OTHER end made for exactly this call's request (or sees nothing: error reply to that request);
+   no closure runs twice; and when both connections are up and nothing is under way or pending,
+   every call made at w has completed exactly once.  (Proof: the calls made at w and served at the
+   other end form a history of the one-directional system -- sub_labels -- once the other direction,
+   the DOWN labels and what a dead connection swallowed are taken out: C19_end_to_end applies.) *)
+Theorem C19_bidirectional :
+  forall (wire_of : bytes -> bytes) (content_of : bytes -> payload),
+    (forall m, content_of (wire_of m) = Valid m) ->
+    forall oA oB sA sB ls y tr,
+      bexec wire_of content_of (binit oA oB sA sB) ls = Some (y, tr) ->
+      bsys_wf wire_of ls -> (forall w, NoDup (bfetch_tags w ls)) ->
+      (forall w, next_id (core (bend y w)) < 9223372036854775808) ->
+      forall w,
+        (forall tg sn, In (ERun tg sn) (cevents (bproj w tr)) ->
+           exists t t' c i, In (BCall w (LFetch t c)) ls /\ c_tag c = tg /\ In (EFetch t' i tg) (cevents (bproj w tr)) /\
+             ((exists k m, sn = Parsed m /\ In (BDone (other w) k m) ls /\
+                           In (EDispatch k i (c_svc c) (c_meth c) (c_req c)) (cevents (bproj (other w) tr))) \/
+              (exists e, sn = Untouched /\
+                         resolve (svcs_of sA sB (other w)) (mkReq i (c_svc c) (c_meth c) (Valid (c_req c))) = inl e))) /\
+        (forall tg, (count_occ Nat.eq_dec (run_tags (cevents (bproj w tr))) tg <= 1)%nat) /\
+        (bquiescent y -> forall t c, In (BCall w (LFetch t c)) ls ->
+           count_occ Nat.eq_dec (run_tags (cevents (bproj w tr))) (c_tag c) = (if c_done c then 1 else 0)%nat /\
+           count_occ Nat.eq_dec (del_tags (cevents (bproj w tr))) (c_tag c) = 1%nat).
+Proof. exact bidirectional. Qed.
+Print Assumptions C19_bidirectional.
+
+(* The connection goes DOWN in the middle of a system history.  What end w does inside the system is a
+   history of that channel's life cycle (cexec), so C19_down_structure & co. apply to it; in
+   particular: after its DOWN end w interprets no frame, runs and deletes nothing and sends nothing
+   (the only events left: id fetches / registrations of a user-owned channel, and F-21's done callback
+   on a destroyed one); nothing runs or is deleted twice; a call in flight at the DOWN never runs --
+   neither before nor after -- and its response object is deleted exactly once if the channel dies
+   with the connection (made by RpcServer), not at all while a user-owned channel lives on. *)
+Theorem C19_system_down :
+  forall (wire_of : bytes -> bytes) (content_of : bytes -> payload) oA oB sA sB ls y tr w,
+    bexec wire_of content_of (binit oA oB sA sB) ls = Some (y, tr) ->
+    let own := svcs_of oA oB w in let svcs := svcs_of sA sB w in
+    cexec (cinit own svcs) (map fst (bproj w tr)) = Some (bend y w, bproj w tr) /\
+    (In (BDown w) ls -> exists l1 l2, map fst (bproj w tr) = map CL l1 ++ CDown :: l2) /\
+    (forall l1 l2, map fst (bproj w tr) = map CL l1 ++ CDown :: l2 ->
+       (forall l ev e, In (l, ev) (skipn (S (length l1)) (bproj w tr)) -> In e ev ->
+          match e with
+          | EFetch _ _ _ | ERegister _ _ _ => own = false
+          | EUseAfterFree _ => own = true
+          | _ => False
+          end) /\
+       (NoDup (fetch_tags l1) ->
+          (forall tg, (count_occ Nat.eq_dec (run_tags (cevents (bproj w tr))) tg <= 1)%nat /\
+                      (count_occ Nat.eq_dec (del_tags (cevents (bproj w tr))) tg <= 1)%nat) /\
+          (forall s1 tr1 i d, exec (init svcs) l1 = Some (s1, tr1) -> lookup i (outs s1) = Some d ->
+             count_occ Nat.eq_dec (run_tags (cevents (bproj w tr))) (c_tag d) = 0%nat /\
+             count_occ Nat.eq_dec (del_tags (cevents (bproj w tr))) (c_tag d) = (if own then 1 else 0)%nat))).
+Proof. exact system_down. Qed.
+Print Assumptions C19_system_down.
+
+(* ---- the RpcCodec layer between channel and connection (C18's framing, imported read-only) ----
+   The frames a channel hands to codec_.send -- each framed as 4-byte length, "RPC0", the RpcMessage
+   bytes of C19_Wire, Adler-32 (C18_Model.encode_msg) -- written one after the other and delivered to
+   the peer in ANY segmentation are decoded by the peer's RpcCodec into exactly the labels the peer's
+   channel should take, in order; everything is consumed, no error, the stream is not abandoned.
+   ([frame_ok]: 64-bit id, fields below 2 GiB, the frame within kMaxMessageLen.)  This is what makes
+   the FIFO of frames of C19_Sys sound over a byte stream. *)
+Theorem C19_frames_arrive_over_bytes :
+  forall (wire_of : bytes -> bytes) (content_of : bytes -> payload),
+    (forall m, content_of (wire_of m) = Valid m) ->
+    forall es chunks,
+      Forall (frame_ok wire_of) es -> concat chunks = stream_of wire_of es ->
+      let r := C18_Model.codec_feed_all rpcmsg wire_parse C18_RpcInstance.rpctag (C18_Model.codec_init) chunks in
+      labels_of content_of (fst r) = map direct_label es /\ snd r = C18_Model.mkD tt [] false false.
+Proof. exact frames_arrive_over_bytes. Qed.
+Print Assumptions C19_frames_arrive_over_bytes.
+
+(* ... and incrementally: whatever part of the byte stream has arrived so far, in whatever pieces,
+   the peer's channel has been handed an initial segment of the frames, in order, each as the right
+   label, and no error. *)
+Theorem C19_delivered_is_initial_segment :
+  forall (wire_of : bytes -> bytes) (content_of : bytes -> payload),
+    (forall m, content_of (wire_of m) = Valid m) ->
+    forall es chunks1 chunks2,
+      Forall (frame_ok wire_of) es -> concat (chunks1 ++ chunks2) = stream_of wire_of es ->
+      exists k, labels_of content_of (fst (C18_Model.codec_feed_all rpcmsg wire_parse C18_RpcInstance.rpctag (C18_Model.codec_init) chunks1)) = map direct_label (firstn k es).
+Proof. exact delivered_is_initial_segment. Qed.
+Print Assumptions C19_delivered_is_initial_segment.
+
 (* On its own channel: every call ever made is still held by the channel (registered, or fetched
    and not yet registered) or has completed exactly once. *)
 Theorem C19_call_accounting :
@@ -471,6 +561,44 @@ Proof.
   split; [intros l Hl; repeat (destruct Hl as [<-|Hl]; [vm_compute; repeat split; try reflexivity; exact I|]); destruct Hl|].
   split; [vm_compute; repeat constructor; intros H; repeat (destruct H as [H|H]; [discriminate|]); exact H|].
   split; [vm_compute; reflexivity|reflexivity].
+Qed.
+
+(* a two-way history: A calls B (deferred, answered later), B calls A (unknown method: error reply);
+   then A's connection goes DOWN with a second call of A still in flight *)
+Definition ex_bi_hist : list blabel :=
+  [BCall SA (LFetch 1%nat (sys_call 1 [x45] [x0a])); BCall SA (LRegister 1%nat); BCall SA (LSend 1%nat);
+   BCall SB (LFetch 1%nat (sys_call 2 [x46] [x0b])); BCall SB (LRegister 1%nat); BCall SB (LSend 1%nat);
+   BDeliver SB; BDeliver SA; BDeliver SB; BDone SB 0%nat [xa1]; BDeliver SA;
+   BCall SA (LFetch 1%nat (sys_call 3 [x45] [x0c])); BCall SA (LRegister 1%nat); BCall SA (LSend 1%nat);
+   BDown SA; BDeliver SB; BDone SB 1%nat [xa2]]%byte.
+
+Example C19_example_bidirectional :
+  exists y tr, bexec (fun b => b) Valid (binit true false ex_svcs ex_svcs) ex_bi_hist = Some (y, tr) /\
+    bsys_wf (fun b => b) ex_bi_hist /\ (forall w, NoDup (bfetch_tags w ex_bi_hist)) /\
+    flat_map (fun e => match e with ERun c s => [(c, s)] | EDrop c => [(c, Garbage)] | _ => [] end) (cevents (bproj SA tr)) =
+      [(1%nat, Parsed [xa1]); (3%nat, Garbage)]%byte /\                   (* call 1 served; call 3 dropped at the DOWN, never run *)
+    flat_map (fun e => match e with ERun c s => [(c, s)] | _ => [] end) (cevents (bproj SB tr)) = [(2%nat, Untouched)] /\
+    In (BDown SA) ex_bi_hist.
+Proof.
+  eexists. eexists. split; [vm_compute; reflexivity|].
+  split; [intros l Hl; repeat (destruct Hl as [<-|Hl]; [vm_compute; repeat split; try reflexivity; exact I|]); destruct Hl|].
+  split; [intros [|]; vm_compute; repeat constructor; intros H; repeat (destruct H as [H|H]; [discriminate|]); exact H|].
+  split; [reflexivity|]. split; [reflexivity|]. vm_compute. auto 20.
+Qed.
+
+(* the bytes of two frames, delivered in three pieces: cut inside the first frame's tag and inside the
+   second frame's checksum *)
+Definition ex_frames : list event := [ESendRequest 1 [x53] [x45] [x0a]; ESendResponse 1 (RReply [xa1])]%byte.
+Definition ex_stream : bytes := stream_of (fun b => b) ex_frames.
+
+Example C19_example_over_bytes :
+  Forall (frame_ok (fun b => b)) ex_frames /\
+  length ex_stream = 58%nat /\
+  labels_of Valid (fst (C18_Model.codec_feed_all rpcmsg wire_parse C18_RpcInstance.rpctag (C18_Model.codec_init)
+                          [firstn 6 ex_stream; firstn 50 (skipn 6 ex_stream); skipn 56 ex_stream])) = map direct_label ex_frames.
+Proof.
+  split; [repeat constructor; vm_compute; try (intro; discriminate); try reflexivity|].
+  split; vm_compute; reflexivity.
 Qed.
 
 (* ---- observation, outside the property: the out-of-contract call ----
